@@ -546,6 +546,7 @@ def collapse_one(
         # Outputs
         for out in new_ent.outputs:
             out.target = inst.fixup_name(inst.fixup.substitute(out.target, ''))
+            out.params = inst.fixup.substitute(out.params, '')
 
     for out in inst.outputs:
         # Non-instance output, ignore - on regular ents it'd never fire.
